@@ -27,6 +27,7 @@ TRUSTED_BASE = [
     "harness/extract_src.py (source translator: Python AST of the codec primitives -> lean/BpProofs/Gen/SrcCodec.lean, re-run on every check) and lean/BpProofs/PyPrelude.lean (what the Python primitives it maps to mean)",
     "harness/extract_srctime.py (source translator: Python AST of the _Duration / _Timestamp methods -> lean/BpProofs/Gen/SrcTime.lean, re-run on every check) and lean/BpProofs/PyPreludeTime.lean (datetime / timedelta as microsecond counts, the float intrinsics; validated by harness/tests/check_srctime.py)",
     "harness/extract_srcimp.py (source translator: Python AST of the reference_* functions and the dispatch of get_type_reference of compile/importing.py -> lean/BpProofs/Gen/SrcImporting.lean, re-run on every check) and lean/BpProofs/PyPreludeStr.lean (str / list slicing, indexing, join, split, os.path.commonprefix, set.add as an ordered list)",
+    "harness/extract_srcdump.py (source translator: Python AST of the body of the field loop of Message.dump / Message.__len__ -> lean/BpProofs/Gen/SrcDump.lean, re-run on every check) and lean/BpProofs/PyPreludeDyn.lean (what getattr / isinstance / == default / the FieldMetadata attributes mean on the model's Val / FieldD; _preprocess_single / _serialize_single / _len_single / bytes(message) are intrinsics standing for the model functions)",
     "that each Lean statement in lean/BpProofs/Props says what the English property says",
 ]
 
